@@ -215,10 +215,12 @@ fn main() {
     }
     if args[1] == "gen-corpus" {
         gen_corpus(&args[2], args.get(3).and_then(|s| s.parse().ok()).unwrap_or(100));
+        pipeline::cleanup_work_root();
         return;
     }
     if args[1] == "gen-stats" {
         gen_stats(args[2].parse().unwrap_or(1000), args.get(3).and_then(|s| s.parse().ok()).unwrap_or(4));
+        pipeline::cleanup_work_root();
         return;
     }
     let id = args[2].clone();
